@@ -1193,8 +1193,8 @@ class ValueMap(Value):
 
     def asObject(self):
         result = ValueObject()
-        for key, value in self.value.items():
-            result.addItem(key.asString().value, value)
+        for key in self.getSortedKeys():
+            result.addItem(key.asString().value, self.value[key])
         return result
 
     def asMap(self):
